@@ -156,6 +156,7 @@ class Interp:
     def make_exc(self, exc_cls, args=()):
         e = HObj(exc_cls)
         e.attrs["args"] = tuple(args)
+        e.attrs["__site__"] = list(self.call_stack[-4:])
         return e
 
     # ---- live value wrapping ------------------------------------------------------------
